@@ -60,6 +60,7 @@ type deferRec struct {
 }
 
 type fnVC struct {
+	callReqHit map[int]bool // callsite clauses that matched at least one call
 	rangeHas map[*ssa.Range]string // has-heap of the ranged map's type when the range began
 	w       *World
 	fn      *ssa.Function
@@ -390,6 +391,13 @@ func (w *World) verifyFunc(fn *ssa.Function, ct *Contract, safetyProps []string)
 	}
 	for _, b := range v.order {
 		v.block(b)
+	}
+	if ct != nil && v.parent == nil {
+		for k, c := range ct.CallReqs {
+			if !v.callReqHit[k] {
+				v.unsupported("callsite clause %q matches no call in %s", c.Callee+" :: "+c.Expr, v.shortName())
+			}
+		}
 	}
 	if err := v.e.finalize(); err != nil {
 		return v, err
